@@ -100,6 +100,11 @@ def gen_scenario(rng, multi):
         ns_line = s.lineno("/ns.html")
         s.add("/ns.html", "  in ns def ${boom(k)}")
         s.add("/ns.html", "</%def>")
+        # a def of the namespace template that runs its caller's body: the traceback leaves the calling template and returns to it
+        s.add("/ns.html", '<%def name="nwrap()">')
+        nwrap_line = s.lineno("/ns.html")
+        s.add("/ns.html", "  <${caller.body()}>")
+        s.add("/ns.html", "</%def>")
         inherit = rng.random() < 0.5
         if inherit:
             for _ in range(rng.randint(0, 2)):
@@ -125,7 +130,7 @@ def gen_scenario(rng, multi):
     s.add(M, "</%def>")
     kinds = ["expr", "expr-ml", "if", "for", "for-loop", "while", "code", "code-one", "def", "call", "block", "filter", "expr-indented"]
     if multi:
-        kinds += ["include", "nsdef", "attr"]
+        kinds += ["include", "nsdef", "attr", "nscall", "nscall"]
     for _ in range(rng.randint(4, 9)):
         for _ in range(rng.randint(0, 2)):
             s.filler(M)
@@ -186,6 +191,9 @@ def gen_scenario(rng, multi):
         elif kind == "nsdef":
             s.sites[k] = {"chain": outer + [(M, ln), ("/ns.html", ns_line)], "kind": kind}
             s.add(M, "${ns.nd(%d)}" % k)
+        elif kind == "nscall":
+            s.sites[k] = {"chain": outer + [(M, ln), ("/ns.html", nwrap_line), (M, ln + 1)], "kind": kind}
+            s.add(M, '<%%ns:nwrap>\n  caller body ${boom(%d)}\n</%%ns:nwrap>' % k)
         elif kind == "attr":
             s.sites[k] = {"chain": outer + [(M, ln)], "kind": kind}
             s.add(M, '<%%include file="${boom(%d, \'/inc.html\')}" args="k=0"/>' % k)
@@ -269,6 +277,10 @@ def _run_path(ctx, path, d, sources, sc, si, kinds_seen, req_tr, got_tr, req_sel
             fname = lambda u: t0.uri  # noqa
         elif path == "template-file":
             t0 = Template(filename=os.path.join(d, "main.html"))
+            get = lambda: t0  # noqa
+            fname = lambda u: os.path.join(d, "main.html")  # noqa
+        elif path == "template-module-filename-relative":
+            t0 = Template(filename=os.path.join(d, "main.html"), module_filename="mods_fn_rel/main_%d.py" % si)
             get = lambda: t0  # noqa
             fname = lambda u: os.path.join(d, "main.html")  # noqa
         elif path == "template-moddir-relative":
@@ -432,7 +444,7 @@ def run(ctx):
                 req_ops.append("ops|" + ",".join(rec.log))
                 # the M op is logged before the sentinel entry and the metadata lines are written: the model run covers them too
                 got_ops.append((u, src, "%d|%s" % (rec.final.lineno, kv(rec.final.source_map))))
-            paths = ["string", "files", "moddir", "moddir-reload", "moddir-relative"] if multi else ["template-string", "template-file", "template-moddir", "template-moddir-relative"]
+            paths = ["string", "files", "moddir", "moddir-reload", "moddir-relative"] if multi else ["template-string", "template-file", "template-moddir", "template-moddir-relative", "template-module-filename-relative"]
             d = os.path.join(workroot, "s%d" % si)
             os.makedirs(d)
             for u, src in sources.items():
